@@ -14,6 +14,10 @@ The other classes' first clause rests on the correspondence + the law oracle: PA
 import DnaModel.Model.Builtin
 import DnaModel.Props.C18
 import DnaModel.Props.C11
+import DnaModel.Props.C10
+import DnaModel.Props.C15
+import DnaModel.Props.C02
+import Mathlib.Tactic.Linarith
 set_option linter.unusedVariables false
 set_option linter.unusedSimpArgs false
 namespace Dna.C08
@@ -307,7 +311,410 @@ theorem avoidPattern_localized_eq (q : Seq) (a b wa wb : Nat) (hq : 1 ≤ q.leng
     rw [key]
 
 
+/-! ### the first clause as one statement about the model of the built-ins -/
+
+/-- the specification evaluates (does not raise) and passes -/
+def PassesB (b : BSpec Rat) (s : Seq) : Prop := ∃ e, b.evaluate s = some e ∧ 0 ≤ e.score
+
+/-- **C08, first clause, at one window**: `b` passes on `s`; `t` differs from `s` only inside `w`;
+    what `b.localized w` returns passes on `t` (nothing to check when it returns `None`).  Then `b`
+    passes on `t`. -/
+def SoundAt (b : BSpec Rat) (w : Loc) (rh : Option Bool) (s t : Seq) : Prop :=
+  PassesB b s → AgreeOutside w.start w.stop s t →
+    (match b.localized w rh with
+     | .none => True
+     | .same => PassesB b t
+     | .new b' => PassesB b' t
+     | .typeError => False) →
+    PassesB b t
+
+/-- classes whose `localized` returns the specification itself (EnforceChoice, non-windowed GC,
+    EnforcePatternOccurence, budgeted AvoidChanges, partial EnforceChanges, terminal GC with both
+    ends, length bounds): the local verdict is the global one -/
+theorem soundAt_of_same (b : BSpec Rat) (w : Loc) (rh : Option Bool) (s t : Seq)
+    (h : b.localized w rh = .same) : SoundAt b w rh s t := by
+  intro _ _ hl
+  rw [h] at hl
+  exact hl
+
+/-- when `localized` returns `None` the evaluation is unchanged by the edit (second clause), so a
+    specification that passed still passes — every region class -/
+theorem soundAt_of_none (b : BSpec Rat) (l w : Loc) (rh : Option Bool) (s t : Seq)
+    (hb : regionOf b = some l) (hl : l.Nonempty) (hl0 : 0 ≤ l.start) (hw : w.Nonempty) (hw0 : 0 ≤ w.start)
+    (hst : l.strand = 1 ∨ l.strand = -1 ∨ l.strand = 0)
+    (hsize : ∀ p l', b = .avoidPattern p l' → 1 ≤ p.size)
+    (hwin : ∀ mi ma k l', b = .gc mi ma (some k) l' → 1 ≤ k)
+    (hnone : b.localized w rh = .none) : SoundAt b w rh s t := by
+  intro hp hag _
+  obtain ⟨e, he, hsc⟩ := hp
+  exact ⟨e, by rw [← localized_none_unchanged b l w rh s t hb hl hl0 hw hw0 hst hsize hwin hnone hag]; exact he, hsc⟩
+
+/-! ### position-wise classes (AvoidChanges, EnforceSequence): the argument
+
+A position-wise specification passes iff every position of its location satisfies a predicate that
+depends on the position only.  Positions outside the window are unchanged, positions inside it are
+exactly those of the localized specification. -/
+
+theorem pointwise_sound (P : Nat → Char → Prop) (a b wa wb : Nat) (s t : Seq) (hag : AgreeOutside wa wb s t)
+    (hglobal : ∀ i, a ≤ i → i < b → ∀ c, s[i]? = some c → P i c)
+    (hlocal : ∀ i, max a wa ≤ i → i < min b wb → ∀ c, t[i]? = some c → P i c) :
+    ∀ i, a ≤ i → i < b → ∀ c, t[i]? = some c → P i c := by
+  intro i h1 h2 c hc
+  by_cases hin : wa ≤ i ∧ i < wb
+  · exact hlocal i (by omega) (by omega) c hc
+  · have : s[i]? = t[i]? := hag.2 i (by omega)
+    exact hglobal i h1 h2 c (by rw [this]; exact hc)
+
+/-- number of differing positions is zero iff the (equally long) sequences are equal -/
+theorem diffCount_zero_iff (u v : Seq) (hlen : u.length = v.length) : diffCount u v = 0 ↔ u = v := by
+  induction u generalizing v with
+  | nil => cases v with
+    | nil => simp [diffCount, diffArray]
+    | cons _ _ => simp at hlen
+  | cons x xs ih =>
+    cases v with
+    | nil => simp at hlen
+    | cons y ys =>
+      simp only [List.length_cons, Nat.add_right_cancel_iff] at hlen
+      have ih' := ih ys hlen
+      simp only [diffCount, diffArray, List.filter_cons] at ih' ⊢
+      by_cases hxy : x = y
+      · subst hxy
+        simp only [bne_self_eq_false, id_eq, Bool.false_eq_true, if_false, List.cons.injEq, true_and]
+        exact ih'
+      · have : (x != y) = true := by simp [hxy]
+        simp [this, hxy]
+
+/-- `AvoidChanges` without an edit budget on a forward / unstranded location passes exactly when the
+    location holds the target -/
+theorem avoidChanges_passes_iff (target : Seq) (a b : Nat) (st : Int) (hst : st ≠ -1) (s : Seq)
+    (hab : a ≤ b) (hb : b ≤ s.length) (hlen : target.length = b - a) :
+    PassesB (.avoidChanges 0 target (.loc ⟨a, b, st⟩)) s ↔ win s a (b - a) = target := by
+  have hsub : (⟨(a : Int), (b : Int), st⟩ : Loc).extract s = some (win s a (b - a)) := by
+    have : (st == -1) = false := by simp [hst]
+    simp only [Loc.extract, this, Bool.false_eq_true, if_false, C15.pySlice_nat' s a b hab hb, win]
+  have hl2 : (win s a (b - a)).length = target.length := by
+    simp only [win, List.length_take, List.length_drop, hlen]; omega
+  constructor
+  · rintro ⟨e, he, hsc⟩
+    have := C10.avoidChanges_score 0 target _ s _ e hsub hl2 he
+    rw [this] at hsc
+    have h0 : diffCount (win s a (b - a)) target = 0 := by
+      have : (((diffCount (win s a (b - a)) target : Nat) : Int) : Rat) ≤ 0 := by linarith
+      have h2 : ((diffCount (win s a (b - a)) target : Nat) : Int) ≤ 0 := by exact_mod_cast this
+      omega
+    exact (diffCount_zero_iff _ _ hl2).1 h0
+  · intro heq
+    have hne : ((win s a (b - a)).length != target.length) = false := by simp [hl2]
+    have hev : ∃ e : BEval Rat, evaluate (.avoidChanges 0 target (.loc ⟨a, b, st⟩)) s = some e ∧
+        e.score = NumK.sub (0 : Rat) (NumK.ofInt ((((List.range (diffArray (win s a (b - a)) target).length).filter
+          (fun i => (diffArray (win s a (b - a)) target)[i]? == some true)).length : Nat) : Int)) := by
+      simp only [evaluate, scopeExtract, hsub, hne, Bool.false_eq_true, if_false]
+      exact ⟨_, rfl, rfl⟩
+    obtain ⟨e, he, hsc⟩ := hev
+    refine ⟨e, he, ?_⟩
+    have h0 := (diffCount_zero_iff _ _ hl2).2 heq
+    rw [hsc, C10.countTrue]
+    have : ((List.filter id (diffArray (win s a (b - a)) target)).length) = 0 := h0
+    rw [this]; simp [NumK.sub, NumK.ofInt]
+
+/-- `overlap_region` of two locations given by natural coordinates that do overlap -/
+theorem overlap_nat (a b wa wb : Nat) (st ws : Int) (h : max a wa < min b wb) :
+    (⟨(a : Int), (b : Int), st⟩ : Loc).overlap ⟨wa, wb, ws⟩ = some ⟨((max a wa : Nat) : Int), ((min b wb : Nat) : Int), st⟩ := by
+  simp only [Loc.overlap]
+  by_cases c1 : (wa : Int) < (a : Int)
+  · simp only [c1, if_true]
+    have c2 : ¬ ((a : Int) ≥ (wb : Int)) := by omega
+    simp only [c2, if_false, Option.some.injEq, Loc.mk.injEq, and_true]
+    constructor <;> omega
+  · simp only [c1, if_false]
+    have c2 : ¬ ((wa : Int) ≥ (b : Int)) := by omega
+    simp only [c2, if_false, Option.some.injEq, Loc.mk.injEq, and_true]
+    constructor <;> omega
+
+theorem overlap_nat_none (a b wa wb : Nat) (st ws : Int) (hab : a < b) (hw : wa < wb) (h : ¬ max a wa < min b wb) :
+    (⟨(a : Int), (b : Int), st⟩ : Loc).overlap ⟨wa, wb, ws⟩ = none := by
+  simp only [Loc.overlap]
+  by_cases c1 : (wa : Int) < (a : Int)
+  · simp only [c1, if_true]
+    have c2 : ((a : Int) ≥ (wb : Int)) := by omega
+    simp only [c2, if_true]
+  · simp only [c1, if_false]
+    have c2 : ((wa : Int) ≥ (b : Int)) := by omega
+    simp only [c2, if_true]
+
+theorem win_getElem? {α : Type} (s : List α) (i k j : Nat) (hj : j < k) : (win s i k)[j]? = s[i + j]? := by
+  simp only [win, List.getElem?_take, hj, if_true, List.getElem?_drop]
+
+/-- **C08, first clause, for AvoidChanges** (no edit budget; forward or unstranded location `[a,b)`,
+    any window `[wa,wb)`, any sequence and any edit confined to the window): the localization the
+    code builds (location `[a,b) ∩ [wa,wb)`, target sliced accordingly) is sound -/
+theorem avoidChanges_soundAt (target : Seq) (a b wa wb : Nat) (st ws : Int) (hst : st ≠ -1) (s t : Seq)
+    (hab : a ≤ b) (hb : b ≤ s.length) (hlen : target.length = b - a) (rh : Option Bool) :
+    SoundAt (.avoidChanges 0 target (.loc ⟨a, b, st⟩)) ⟨wa, wb, ws⟩ rh s t := by
+  intro hp hag0 hl
+  have hag : AgreeOutside wa wb s t := hag0
+  have hbt : b ≤ t.length := by rw [← hag.1]; exact hb
+  rw [avoidChanges_passes_iff target a b st hst s hab hb hlen] at hp
+  rw [avoidChanges_passes_iff target a b st hst t hab hbt hlen]
+  -- what the localized specification says about the window
+  have hloc : ∀ i, max a wa ≤ i → i < min b wb → t[i]? = target[i - a]? := by
+    intro i h1 h2
+    have hov : max a wa < min b wb := by omega
+    have e0 : Score.eq (0 : Rat) (Score.zero : Rat) = true := by decide
+    simp only [localized, e0, Bool.not_true, Bool.false_eq_true, if_false, overlap_nat a b wa wb st ws hov] at hl
+    have hm1 : a ≤ max a wa := by omega
+    have hm2 : max a wa ≤ min b wb := by omega
+    have hsl : pySlice target (((max a wa : Nat) : Int) + -(a : Int)) (((min b wb : Nat) : Int) + -(a : Int)) =
+        win target (max a wa - a) (min b wb - max a wa) := by
+      have e1 : ((max a wa : Nat) : Int) + -(a : Int) = ((max a wa - a : Nat) : Int) := by omega
+      have e2 : ((min b wb : Nat) : Int) + -(a : Int) = ((min b wb - a : Nat) : Int) := by omega
+      rw [e1, e2, C15.pySlice_nat' target _ _ (by omega) (by omega)]
+      simp only [win]
+      congr 1
+      omega
+    simp only [Loc.shift, hsl] at hl
+    have hl' := (avoidChanges_passes_iff (win target (max a wa - a) (min b wb - max a wa)) (max a wa) (min b wb) st hst t
+      hm2 (by omega) (by simp only [win, List.length_take, List.length_drop]; omega)).1 hl
+    have h3 : (win t (max a wa) (min b wb - max a wa))[i - max a wa]? = t[i]? := by
+      rw [win_getElem? t _ _ _ (by omega)]; congr 1; omega
+    have h4 : (win target (max a wa - a) (min b wb - max a wa))[i - max a wa]? = target[i - a]? := by
+      rw [win_getElem? target _ _ _ (by omega)]; congr 1; omega
+    rw [← h3, hl', h4]
+  apply List.ext_getElem?
+  intro k
+  by_cases hk : k < b - a
+  · rw [win_getElem? t a (b - a) k hk]
+    by_cases hin : wa ≤ a + k ∧ a + k < wb
+    · rw [hloc (a + k) (by omega) (by omega)]; congr 1; omega
+    · rw [← hag.2 (a + k) (by omega), ← win_getElem? s a (b - a) k hk, hp]
+  · have h1 : (win t a (b - a)).length ≤ k := by simp only [win, List.length_take, List.length_drop]; omega
+    rw [List.getElem?_eq_none h1, List.getElem?_eq_none (by omega)]
+
+/-! ### EnforceSequence (IUPAC letters, forward / unstranded location) -/
+
+/-- position `i` of the location holds a nucleotide allowed by the `i`-th IUPAC letter -/
+def SeqOk (sq sub : Seq) (i : Nat) : Prop :=
+  ∃ n letter set, sub[i]? = some n ∧ sq[i]? = some letter ∧ lookup letter Gen.iupac = some set ∧ set.contains n = true
+
+theorem filter_range_length_zero (n : Nat) (p : Nat → Bool) :
+    ((List.range n).filter p).length = 0 ↔ ∀ i, i < n → p i = false := by
+  rw [List.length_eq_zero_iff, List.filter_eq_nil_iff]
+  constructor
+  · intro h i hi
+    have := h i (List.mem_range.2 hi)
+    simpa using this
+  · intro h i hi
+    simp [h i (List.mem_range.1 hi)]
+
+/-- `EnforceSequence` passes exactly when every position of the location holds a nucleotide of its
+    IUPAC letter -/
+theorem enforceSequence_passes_iff (sq : Seq) (a b : Nat) (st : Int) (hst : st ≠ -1) (s : Seq)
+    (hab : a ≤ b) (hb : b ≤ s.length) :
+    PassesB (.enforceSequence sq ⟨a, b, st⟩) s ↔ (b - a ≤ sq.length ∧ ∀ i, i < b - a → SeqOk sq (win s a (b - a)) i) := by
+  have hsub : (⟨(a : Int), (b : Int), st⟩ : Loc).extract s = some (win s a (b - a)) := by
+    have : (st == -1) = false := by simp [hst]
+    simp only [Loc.extract, this, Bool.false_eq_true, if_false, C15.pySlice_nat' s a b hab hb, win]
+  have hlen : (win s a (b - a)).length = b - a := by
+    simp only [win, List.length_take, List.length_drop]; omega
+  generalize hsubv : win s a (b - a) = sub at hsub hlen
+  simp only [PassesB, evaluate, hsub]
+  constructor
+  · rintro ⟨e, he, hsc⟩
+    split at he
+    · simp at he
+    · rename_i hle
+      split at he
+      · simp at he
+      · rename_i hany
+        simp only [Option.some.injEq] at he
+        rw [← he] at hsc
+        simp only [NumK.ofInt] at hsc
+        have hz : ((List.range sub.length).filter (fun i =>
+            ((List.range sub.length).map (fun i => match sub[i]?, sq[i]? with
+              | some n, some letter => (lookup letter Gen.iupac).map (fun set => !set.contains n)
+              | _, _ => none))[i]? == some (some true))).length = 0 := by
+          have h1 := (C10.ofInt_neg_nonneg_iff _).1 hsc
+          exact h1
+        rw [filter_range_length_zero] at hz
+        refine ⟨by rw [hlen] at hle; omega, ?_⟩
+        intro i hi
+        have hi' : i < sub.length := by omega
+        have hzi := hz i hi'
+        simp only [List.any_eq_true, not_exists, not_and, List.mem_map, List.mem_range] at hany
+        have hdef := hany _ ⟨i, hi', rfl⟩
+        simp only [List.getElem?_map, List.getElem?_range hi', Option.map_some] at hzi
+        cases hn : sub[i]? with
+        | none => simp [hn] at hdef
+        | some n =>
+          cases hq : sq[i]? with
+          | none => simp [hn, hq] at hdef
+          | some letter =>
+            cases hlk : lookup letter Gen.iupac with
+            | none => simp [hn, hq, hlk] at hdef
+            | some set =>
+              simp only [hn, hq, hlk, Option.map_some] at hzi
+              refine ⟨n, letter, set, hn, hq, hlk, ?_⟩
+              cases hc : set.contains n with
+              | true => rfl
+              | false => rw [hc] at hzi; simp at hzi
+  · rintro ⟨hle, hall⟩
+    have hle' : ¬ (sub.length > sq.length) := by omega
+    simp only [hle', if_false]
+    split
+    · rename_i hany
+      exfalso
+      simp only [List.any_eq_true, List.mem_map, List.mem_range] at hany
+      obtain ⟨x, ⟨i, hi, rfl⟩, hx⟩ := hany
+      obtain ⟨n, letter, set, h1, h2, h3, _⟩ := hall i (by omega)
+      simp [h1, h2, h3] at hx
+    · refine ⟨_, rfl, ?_⟩
+      simp only [NumK.ofInt]
+      rw [C10.ofInt_neg_nonneg_iff, filter_range_length_zero]
+      intro i hi
+      obtain ⟨n, letter, set, h1, h2, h3, h4⟩ := hall i (by omega)
+      have h4' : n ∈ set := by simpa using h4
+      simp [List.getElem?_map, List.getElem?_range hi, h1, h2, h3, h4']
+
+/-- **C08, first clause, for EnforceSequence** (forward or unstranded location `[a,b)`, any window,
+    any sequence and any edit confined to the window): the localization the code builds (location
+    `[a,b) ∩ [wa,wb)`, IUPAC string sliced accordingly) is sound -/
+theorem enforceSequence_soundAt (sq : Seq) (a b wa wb : Nat) (st ws : Int) (hst : st ≠ -1) (s t : Seq)
+    (hab : a ≤ b) (hb : b ≤ s.length) :
+    SoundAt (.enforceSequence sq ⟨a, b, st⟩) ⟨wa, wb, ws⟩ none s t := by
+  intro hp hag0 hl
+  have hag : AgreeOutside wa wb s t := hag0
+  have hbt : b ≤ t.length := by rw [← hag.1]; exact hb
+  rw [enforceSequence_passes_iff sq a b st hst s hab hb] at hp
+  rw [enforceSequence_passes_iff sq a b st hst t hab hbt]
+  refine ⟨hp.1, ?_⟩
+  intro i hi
+  by_cases hin : wa ≤ a + i ∧ a + i < wb
+  · -- inside the window: the localized specification speaks
+    have hov : max a wa < min b wb := by omega
+    have hm2 : max a wa ≤ min b wb := by omega
+    have hst' : (st == -1) = false := by simp [hst]
+    simp only [localized, Option.isSome_none, Bool.false_eq_true, if_false, overlap_nat a b wa wb st ws hov, hst'] at hl
+    have hsl : pySlice sq (((max a wa : Nat) : Int) - (a : Int)) (((min b wb : Nat) : Int) - (a : Int)) =
+        win sq (max a wa - a) (min b wb - max a wa) := by
+      have e1 : ((max a wa : Nat) : Int) - (a : Int) = ((max a wa - a : Nat) : Int) := by omega
+      have e2 : ((min b wb : Nat) : Int) - (a : Int) = ((min b wb - a : Nat) : Int) := by omega
+      rw [e1, e2, C15.pySlice_nat' sq _ _ (by omega) (by omega)]
+      simp only [win]
+      congr 1
+      omega
+    rw [hsl] at hl
+    have hl' := (enforceSequence_passes_iff _ (max a wa) (min b wb) st hst t hm2 (by omega)).1 hl
+    obtain ⟨n, letter, set, h1, h2, h3, h4⟩ := hl'.2 (a + i - max a wa) (by omega)
+    rw [win_getElem? t _ _ _ (by omega)] at h1
+    rw [win_getElem? sq _ _ _ (by omega)] at h2
+    refine ⟨n, letter, set, ?_, ?_, h3, h4⟩
+    · rw [win_getElem? t a (b - a) i hi, ← h1]; congr 1; omega
+    · rw [← h2]; congr 1; omega
+  · -- outside the window: unchanged
+    obtain ⟨n, letter, set, h1, h2, h3, h4⟩ := hp.2 i hi
+    refine ⟨n, letter, set, ?_, h2, h3, h4⟩
+    rw [win_getElem? t a (b - a) i hi, ← hag.2 (a + i) (by omega), ← win_getElem? s a (b - a) i hi]
+    exact h1
+
+/-! ### from the built-in model to the solver's hypothesis
+
+The whole-problem theorem `C02.optimize_preserves_feasible` asks, for every constraint the solver
+evaluates, for `C02.LocalSound`.  Built-in specifications seen as solver objects: `evaluate` that
+raises counts as failing, `localized` as the model computes it, `initialized_on_problem` of an
+already initialised specification is the identity. -/
+
+/-- a built-in specification's evaluation as the solver sees it (a raising evaluation never passes) -/
+def evB (b : BSpec Rat) (s : Seq) : Eval Rat :=
+  match b.evaluate s with
+  | some e => ⟨e.score, e.locs⟩
+  | none => ⟨-1, none⟩
+
+/-- `localized(location)` without `with_righthand`, as an optional new object -/
+def lzB (b : BSpec Rat) (w : Loc) (_ : Seq) : Option (BSpec Rat) :=
+  match b.localized w none with
+  | .none => none
+  | .same => some b
+  | .new b' => some b'
+  | .typeError => none
+
+def iniB (b : BSpec Rat) (_ : Seq) (_ : Role) : BSpec Rat := b
+
+theorem evB_passes_iff (b : BSpec Rat) (s : Seq) : (evB b s).passes = true ↔ PassesB b s := by
+  simp only [evB, PassesB]
+  cases h : b.evaluate s with
+  | none => simp [Eval.passes, Score.le, Score.zero]
+  | some e =>
+    simp only [Eval.passes, Score.le, Score.zero, decide_eq_true_eq, Option.some.injEq, exists_eq_left']
+
+theorem agreeOutside_of_agreeOut (a b : Nat) (s t : Seq) (h : C02.AgreeOut a b s t) : AgreeOutside a b s t := by
+  refine ⟨h.1.symm, ?_⟩
+  intro i hi
+  exact (h.2 i (by omega)).symm
+
+/-- **the bridge**: soundness of the model's localization at every window of a sequence of length
+    `n` is the hypothesis `C02.LocalSound` of the whole-problem theorem -/
+theorem localSound_of_soundAt (n : Nat) (b : BSpec Rat)
+    (hty : ∀ w, b.localized w none ≠ .typeError)
+    (h : ∀ (a c : Nat) (s t : Seq), s.length = n → SoundAt b ⟨a, c, 0⟩ none s t) :
+    C02.LocalSound n evB lzB iniB b := by
+  intro a c s t hn hp hag hl
+  rw [evB_passes_iff] at hp ⊢
+  apply h a c s t hn hp (agreeOutside_of_agreeOut a c s t hag)
+  cases hloc : b.localized ⟨a, c, 0⟩ none with
+  | none => trivial
+  | same =>
+    have := hl b (by simp only [lzB, hloc])
+    simp only
+    rw [← evB_passes_iff]; exact this
+  | new b' =>
+    have := hl b' (by simp only [lzB, hloc])
+    simp only
+    rw [← evB_passes_iff]; exact this
+  | typeError => exact absurd hloc (hty _)
+
+/-- `AvoidChanges` (no budget, forward / unstranded location inside the sequence) satisfies the
+    hypothesis of `C02.optimize_preserves_feasible` -/
+theorem avoidChanges_localSound (n : Nat) (target : Seq) (a b : Nat) (st : Int) (hst : st ≠ -1)
+    (hab : a ≤ b) (hb : b ≤ n) (hlen : target.length = b - a) :
+    C02.LocalSound n evB lzB iniB (.avoidChanges 0 target (.loc ⟨a, b, st⟩)) := by
+  apply localSound_of_soundAt
+  · intro w
+    simp only [localized]
+    split
+    · simp
+    · split <;> simp
+  · intro wa wb s t hn
+    exact avoidChanges_soundAt target a b wa wb st 0 hst s t hab (by omega) hlen none
+
+/-- `EnforceSequence` (forward / unstranded location inside the sequence) satisfies the hypothesis of
+    `C02.optimize_preserves_feasible` -/
+theorem enforceSequence_localSound (n : Nat) (sq : Seq) (a b : Nat) (st : Int) (hst : st ≠ -1)
+    (hab : a ≤ b) (hb : b ≤ n) :
+    C02.LocalSound n evB lzB iniB (.enforceSequence sq ⟨a, b, st⟩) := by
+  apply localSound_of_soundAt
+  · intro w
+    simp only [localized, Option.isSome_none, Bool.false_eq_true, if_false]
+    split <;> simp
+  · intro wa wb s t hn
+    exact enforceSequence_soundAt sq a b wa wb st 0 hst s t hab (by omega)
+
+/-- every specification whose `localized` always returns itself (EnforceChoice, non-windowed GC,
+    SequenceLengthBounds without `with_righthand`, budgeted AvoidChanges …) satisfies it -/
+theorem same_localSound (n : Nat) (b : BSpec Rat) (h : ∀ w, b.localized w none = .same) :
+    C02.LocalSound n evB lzB iniB b := by
+  apply localSound_of_soundAt
+  · intro w; rw [h w]; simp
+  · intro wa wb s t _
+    exact soundAt_of_same b _ none s t (h _)
+
+example (n : Nat) (choices : List Seq) (l : Loc) : C02.LocalSound n evB lzB iniB (.enforceChoice choices l) :=
+  same_localSound n _ (fun _ => rfl)
+
 /-! ### non-vacuity -/
+example : PassesB (.avoidChanges 0 "TG".toList (.loc ⟨1, 3, 1⟩)) "ATGC".toList :=
+  (avoidChanges_passes_iff "TG".toList 1 3 1 (by decide) "ATGC".toList (by decide) (by decide) (by decide)).2 (by decide)
+
 example : AgreeOutside 2 4 "ATGCA".toList "ATTTA".toList := by
   refine ⟨rfl, ?_⟩
   intro i hi
